@@ -126,9 +126,14 @@ pub struct VerifierC;
 
 #[contractimpl]
 impl VerifierC {
-    pub fn __constructor(e: &Env, cti: Address, irs: Address) {
-        idv::set_claim_topics_and_issuers(e, &cti);
-        idv::set_identity_registry_storage(e, &irs);
+    /// either registry may be left out (a verifier that was not wired up)
+    pub fn __constructor(e: &Env, cti: Option<Address>, irs: Option<Address>) {
+        if let Some(c) = cti {
+            idv::set_claim_topics_and_issuers(e, &c);
+        }
+        if let Some(i) = irs {
+            idv::set_identity_registry_storage(e, &i);
+        }
     }
     pub fn verify_identity(e: &Env, account: Address) {
         idv::verify_identity(e, &account)
